@@ -45,7 +45,10 @@ def _overlay(unit, tier, seed=0):
 
 def apply_overlay(repo, unit, tier, seed=0):
     applied = []
-    for ov in _overlay(unit, tier, seed):
+    # two-stage units (u6): `prepare` may build and run helper code NATIVELY inside the scratch copy
+    # (e.g. dump the bytes the real emitter produces) and returns the final overlay
+    ovs = unit.prepare(repo, tier, seed) if hasattr(unit, "prepare") else _overlay(unit, tier, seed)
+    for ov in ovs:
         src = ov["src"]
         if "\n" not in src:
             src = open(os.path.join(KANI_DIR, src)).read()
@@ -62,7 +65,8 @@ def apply_overlay(repo, unit, tier, seed=0):
         if not os.path.exists(mod_in):
             raise RuntimeError("lost anchor: %s does not exist in /repo" % ov["mod_in"])
         with open(mod_in, "a") as fh:
-            fh.write('\n#[cfg(kani)]\n#[path = "%s"]\nmod %s;\n' % (dest, ov["mod_name"]))
+            if not ov.get("already_declared"):
+                fh.write('\n#[cfg(%s)]\n#[path = "%s"]\nmod %s;\n' % (ov.get("cfg", "kani"), dest, ov["mod_name"]))
         applied.append({"harness_file": ov["dest"], "module_appended_to": ov["mod_in"],
                         "params": ov.get("params", {})})
     lock = os.path.join(repo, "Cargo.lock")
@@ -221,7 +225,7 @@ def run_unit(unit_name, tier, seed, only_props=None, want_playback=True, log=sys
                 failed.append(entry)
             result["harnesses"].append(entry)
         # counterexamples for failing harnesses (sequential, bounded in number)
-        if want_playback:
+        if want_playback and not hasattr(unit, "native_replay"):
             for entry in failed[:(2 if tier == 'quick' else 8)]:
                 cmd = kani_cmd([entry["name"]], flags, entry.get("timeout", 120), 1, playback=True)
                 rc, out, secs = run(cmd, cwd=sc.repo, timeout=entry.get("timeout", 120) + 300, rss_kill_gb=RSS_GB)
